@@ -1133,8 +1133,15 @@ func e2eTraffic(pfx string, monitor, inconsistency, counters bool) e2eOracle {
 				if inconsistency {
 					put("corerad_advertiser_inconsistencies_total", n+"||managed_configuration", 1, 1)
 					judged["corerad_advertiser_inconsistencies_total"] = true
-					if got := strings.Count(run.Stderr, n+": inconsistencies detected"); got != 1 {
-						return verifkit.Violf(pfx+"/inconsistency-log", "%q: %d 'inconsistencies detected' log lines for one inconsistent RA (and one with hop limit 64)\n%s", n, got, d())
+					// (the one inconsistency - the M flag - is logged once: a line of this interface that names the field, however worded)
+					got := 0
+					for _, line := range strings.Split(run.Stderr, "\n") {
+						if strings.Contains(line, n+":") && strings.Contains(line, "managed_configuration") {
+							got++
+						}
+					}
+					if got != 1 {
+						return verifkit.Violf(pfx+"/inconsistency-log", "%q: %d log lines naming the managed_configuration inconsistency for one inconsistent RA (and one with hop limit 64)\n%s", n, got, d())
 					}
 				}
 				if counters {
